@@ -15,7 +15,7 @@ SPEC = {
     'level': 'model_checking',
     'engine': 'E',
     'technique': 'exhaustive enumeration of the running binary\'s own symbol tables (every function-table entry, every ELF '
-                 'symbol, 204 generated package variables) and of nine near-miss mutations of every name (incl. the import path without its first element, its last element alone, and a vendored package's name without the vendor/ prefix), against '
+                 'symbol, 204 generated package variables) and of nine near-miss mutations of every name (incl. the import path without its first element, its last element alone, and the name of a vendored package without the vendor/ prefix), against '
                  'goom-independent ground truth (runtime.FuncForPC walk of all executable pages, &v, debug/elf + debug/gosym), '
                  'in five link configurations (default, -s, PIE, external/cgo, external/cgo -s)',
     'claim': 'for every name in the tables of the three test binaries (default link, -ldflags=-s, -buildmode=pie), through '
